@@ -270,7 +270,11 @@ class DefGen:
                     self.has_eof = True
                 else:
                     dims = [rng.randint(1, 3)]
-                if sw["multidim"] and rng.random() < 0.25 and not fdyn:
+                if sw["multidim"] and sw["expr"] and not self.fixed_only and rng.random() < 0.12 and tname not in LEB and tname != "ptr":
+                    # rows of a length given by an expression: T x[2][n & 3]
+                    dims = [rng.randint(2, 3), self.length_expr(int_fields)]
+                    fdyn = True
+                elif sw["multidim"] and rng.random() < 0.25 and not fdyn:
                     dims = [rng.randint(1, 2)] + dims
                 elif sw["multidim"] and rng.random() < 0.1 and dims and dims[0] != "" and tname not in LEB:
                     # dynamic outer dimension over fixed inner
